@@ -19,8 +19,10 @@ def preorder(n):
 
 def fields(n):
     """the eight value fields compared by structural equality (dicts order-insensitive)"""
-    return (n.name, n.content, n.tail, tuple(sorted(n.attributes.items())), tuple(sorted(n.extras.items())),
-            n.prefix, tuple(sorted(n.nsmap.items())))
+    def items(d):
+        # a namespace map taken over from lxml files the default namespace under the key None
+        return tuple(sorted(d.items(), key=lambda kv: (kv[0] is not None, str(kv[0]))))
+    return (n.name, n.content, n.tail, items(n.attributes), items(n.extras), n.prefix, items(n.nsmap))
 
 
 def snap(n, ids=False):
